@@ -380,7 +380,7 @@ impl SpMat {
 //@endif
         ensures r.sh@ == shape, r.es@ == bsel(tv(entries@), entries@.len() as int, shape.0 as int, shape.1 as int, 0, 0),
             forall|t: int| 0 <= t < entries@.len() && (#[trigger] tv(entries@)[t]).2 != r0() ==> tv(entries@)[t].0 < shape.0 && tv(entries@)[t].1 < shape.1,
-            distinct(tv(entries@)) && inside(tv(entries@), shape.0 as int, shape.1 as int) ==> r.wf() && forall|i: int, j: int| 0 <= i < shape.0 && 0 <= j < shape.1 ==> #[trigger] r.at(i, j) == val(tv(entries@), i, j),
+            distinct(tv(entries@)) ==> r.wf() && forall|i: int, j: int| 0 <= i < shape.0 && 0 <= j < shape.1 ==> #[trigger] val(r.es@, i, j) == val(tv(entries@), i, j),
     //@body impl/SpMat/from_entries for_iter=1 loops=1 iter_model=entries! subst=CscMatrix::from:csc_from_,Self::from:from_csc_
     //@+ sig
     //@| fn from_entries<T>(shape: (usize, usize), entries: T) -> Self where T: IntoIterator<Item = (usize, usize, R)>
@@ -400,7 +400,7 @@ impl SpMat {
     //@+ loop 0 begin
     //@| assert(i == es0[__it0.pos@ - 1].0 && j == es0[__it0.pos@ - 1].1 && a.v() == es0[__it0.pos@ - 1].2);
     //@+ post
-    //@| if distinct(es0) && inside(es0, shape.0 as int, shape.1 as int) { lemma_bsel_done(es0, shape.0 as int, shape.1 as int, 0, 0, shape.0 as int, shape.1 as int); }
+    //@| if distinct(es0) { lemma_nz(es0, shape.0 as int, shape.1 as int); }
 
     /// [A B; C D] from its four blocks
     pub fn combine_blocks(blocks: [&SpMat; 4]) -> (r: SpMat)
@@ -926,17 +926,142 @@ pub proof fn lemma_wsel_done(es: Seq<Tw>, k: int, hi: bool, n: int)
     }
 }
 
+/// (i, a) |-> (i, 0, a): the entries of the dim x 1 matrix
+pub open spec fn col0(w: Seq<Tw>) -> Seq<Tv> { Seq::new(w.len(), |t: int| (w[t].0, 0usize, w[t].1)) }
+/// the column of an n x 1 matrix as a vector's entry list
+pub open spec fn vcol(es: Seq<Tv>) -> Seq<Tw> { Seq::new(es.len(), |t: int| (es[t].0, es[t].2)) }
+pub proof fn lemma_col0(w: Seq<Tw>, dim: int)
+    ensures vdistinct(w) ==> distinct(col0(w)), vinside(w, dim) ==> inside(col0(w), dim, 1),
+        forall|i: int| #![trigger vval(w, i)] vdistinct(w) ==> val(col0(w), i, 0) == vval(w, i),
+{
+    let g = col0(w);
+    assert forall|i: int| #![trigger vval(w, i)] vdistinct(w) implies val(g, i, 0) == vval(w, i) by {
+        if vdistinct(w) {
+            if vhas(w, i) { let t = vpos(w, i); lemma_vval(w, t); assert(g[t].0 == i && g[t].1 == 0); assert(has(g, i, 0)); lemma_val(g, pos(g, i, 0)); let t2 = pos(g, i, 0); assert(w[t2].0 == i); if t2 != t { if t2 < t { assert(w[t2].0 != w[t].0); } else { assert(w[t].0 != w[t2].0); } } }
+            else if has(g, i, 0) { let t = pos(g, i, 0); assert(w[t].0 == i); assert(vhas(w, i)); }
+        }
+    }
+}
+/// the vector read off a well-formed dim x 1 matrix x whose values agree with the entry list w
+pub proof fn lemma_vcol(ves: Seq<Tw>, g3: Seq<Tv>, w: Seq<Tw>, dim: int)
+    requires vdistinct(w), g3 == col0(w), exists|x: Seq<Tv>| #![trigger vcol(x)] ves == vcol(x) && distinct(x) && inside(x, dim, 1) && forall|i: int, j: int| 0 <= i < dim && 0 <= j < 1 ==> #[trigger] val(x, i, j) == val(g3, i, j),
+    ensures vdistinct(ves), vinside(ves, dim), forall|i: int| 0 <= i < dim ==> #[trigger] vval(ves, i) == vval(w, i),
+{
+    let x = choose|x: Seq<Tv>| #![trigger vcol(x)] ves == vcol(x) && distinct(x) && inside(x, dim, 1) && forall|i: int, j: int| 0 <= i < dim && 0 <= j < 1 ==> #[trigger] val(x, i, j) == val(g3, i, j);
+    lemma_col0(w, dim);
+    assert forall|s1: int, t1: int| 0 <= s1 < t1 < ves.len() implies #[trigger] ves[s1].0 != #[trigger] ves[t1].0 by { assert(x[s1].1 == 0 && x[t1].1 == 0); assert(!(x[s1].0 == x[t1].0 && x[s1].1 == x[t1].1)); }
+    assert forall|t: int| 0 <= t < ves.len() implies (#[trigger] ves[t]).0 < dim by { assert(x[t].0 < dim); }
+    assert forall|i: int| 0 <= i < dim implies #[trigger] vval(ves, i) == vval(w, i) by {
+        assert(val(x, i, 0) == val(g3, i, 0));
+        if vhas(ves, i) { let t = vpos(ves, i); lemma_vval(ves, t); assert(x[t].0 == i && x[t].1 == 0); lemma_val(x, t); }
+        else if has(x, i, 0) { let t = pos(x, i, 0); assert(ves[t].0 == i); assert(vhas(ves, i)); }
+    }
+}
+pub open spec fn vext_at<F: Fn(usize) -> Option<usize>>(f: F, e: Tw, dim: usize, r: SpVec, o: Option<usize>) -> bool {
+    f.ensures((e.0,), o) && (o.is_some() ==> ((e.1 != r0() ==> o.unwrap() < dim) && (o.unwrap() < dim ==> r.at(o.unwrap() as int) == e.1)))
+}
+pub open spec fn vext_ok<F: Fn(usize) -> Option<usize>>(f: F, e: Tw, dim: usize, r: SpVec) -> bool { exists|o: Option<usize>| #[trigger] vext_at(f, e, dim, r, o) }
+pub open spec fn vfsel(es: Seq<Tw>, os: Seq<Option<usize>>, p: int) -> Seq<Tw> decreases p {
+    if p <= 0 { Seq::empty() } else if os[p - 1].is_some() { vfsel(es, os, p - 1).push((os[p - 1].unwrap(), es[p - 1].1)) } else { vfsel(es, os, p - 1) }
+}
+pub open spec fn vfsrc(es: Seq<Tw>, os: Seq<Option<usize>>, p: int, u: int) -> int decreases p {
+    if p <= 0 { -1 } else if os[p - 1].is_some() && u == vfsel(es, os, p - 1).len() { p - 1 } else { vfsrc(es, os, p - 1, u) }
+}
+pub proof fn lemma_vfsel_ext(es: Seq<Tw>, os0: Seq<Option<usize>>, os: Seq<Option<usize>>, p: int)
+    requires 0 <= p <= os0.len(), os0.len() <= os.len(), forall|t: int| 0 <= t < os0.len() ==> os[t] == os0[t]
+    ensures vfsel(es, os, p) == vfsel(es, os0, p)
+    decreases p
+{ if p > 0 { lemma_vfsel_ext(es, os0, os, p - 1); } }
+pub proof fn lemma_vfsrc(es: Seq<Tw>, os: Seq<Option<usize>>, p: int, u: int)
+    requires 0 <= p <= es.len(), p <= os.len(), 0 <= u < vfsel(es, os, p).len()
+    ensures 0 <= vfsrc(es, os, p, u) < p, os[vfsrc(es, os, p, u)].is_some(),
+        vfsel(es, os, p)[u] == (os[vfsrc(es, os, p, u)].unwrap(), es[vfsrc(es, os, p, u)].1),
+        forall|u2: int| u < u2 < vfsel(es, os, p).len() ==> vfsrc(es, os, p, u) < #[trigger] vfsrc(es, os, p, u2),
+    decreases p
+{
+    if p > 0 {
+        let b0 = vfsel(es, os, p - 1);
+        if os[p - 1].is_some() {
+            if u < b0.len() { lemma_vfsrc(es, os, p - 1, u); }
+            assert forall|u2: int| u < u2 < vfsel(es, os, p).len() implies vfsrc(es, os, p, u) < #[trigger] vfsrc(es, os, p, u2) by {
+                assert(vfsel(es, os, p).len() == b0.len() + 1);
+                if u2 < b0.len() { assert(vfsrc(es, os, p, u2) == vfsrc(es, os, p - 1, u2)); assert(vfsrc(es, os, p - 1, u) < vfsrc(es, os, p - 1, u2)); }
+                else { assert(u2 == b0.len()); assert(vfsrc(es, os, p, u2) == p - 1); assert(vfsrc(es, os, p, u) == vfsrc(es, os, p - 1, u)); }
+            }
+        } else {
+            lemma_vfsrc(es, os, p - 1, u);
+            assert forall|u2: int| u < u2 < vfsel(es, os, p).len() implies vfsrc(es, os, p, u) < #[trigger] vfsrc(es, os, p, u2) by {
+                assert(vfsrc(es, os, p - 1, u) < vfsrc(es, os, p - 1, u2));
+            }
+        }
+    }
+}
+pub proof fn lemma_vfidx(es: Seq<Tw>, os: Seq<Option<usize>>, p: int, t: int)
+    requires 0 <= t < p <= es.len(), p <= os.len(), os[t].is_some()
+    ensures 0 <= vfsel(es, os, t).len() < vfsel(es, os, p).len(), vfsel(es, os, p)[vfsel(es, os, t).len() as int] == (os[t].unwrap(), es[t].1)
+    decreases p
+{ if p - 1 == t { } else { lemma_vfidx(es, os, p - 1, t); } }
+/// every index stored in the vector read off x = bsel(col0(w), ..) is an index of the list w
+pub proof fn lemma_vcol_from(ves: Seq<Tw>, w: Seq<Tw>, dim: int)
+    requires exists|x: Seq<Tv>| #![trigger vcol(x)] ves == vcol(x) && x == bsel(col0(w), w.len() as int, dim, 1, 0, 0),
+    ensures forall|a: int| #[trigger] vhas(ves, a) ==> vhas(w, a),
+{
+    let x = choose|x: Seq<Tv>| #![trigger vcol(x)] ves == vcol(x) && x == bsel(col0(w), w.len() as int, dim, 1, 0, 0);
+    let g = col0(w);
+    assert forall|a: int| #[trigger] vhas(ves, a) implies vhas(w, a) by {
+        let u = vpos(ves, a);
+        assert(x[u].0 == a);
+        lemma_src(g, g.len() as int, dim, 1, 0, 0, u);
+        let t = src(g, g.len() as int, dim, 1, 0, 0, u);
+        assert(g[t].0 == a); assert(w[t].0 == a);
+    }
+}
+impl SpMat {
+    /// ASSUMED (SpVec::new on the inner CSC matrix of an n x 1 matrix): the column as a vector; rejects any other width
+    #[verifier::external_body] pub fn into_spvec(self) -> (r: SpVec) ensures self.sh@.1 == 1, r.n@ == self.sh@.0, r.es@ == vcol(self.es@) { unimplemented!() }
+}
 impl SpVec {
     pub open spec fn wf(&self) -> bool { vdistinct(self.es@) && vinside(self.es@, self.n@ as int) }
     pub open spec fn at(&self, i: int) -> int { vval(self.es@, i) }
     #[verifier::external_body] pub fn dim(&self) -> (r: usize) ensures r == self.n@ { unimplemented!() }
     #[verifier::external_body] pub fn iter(&self) -> (r: WIter<'_>) ensures r.es@ == self.es@, r.pos@ == 0 { unimplemented!() }
-    /// ASSUMED (SpMat::from_entries on an n x 1 matrix): for pairwise different indices inside the dimension, the vector with exactly those entries
-    #[verifier::external_body] pub fn from_entries(dim: usize, entries: Vec<(usize, ER)>) -> (r: SpVec)
+    /// the vector with the given (index, value) pairs -- the real body (SpMat::from_entries on a dim x 1 matrix, rule R43, then into_spvec):
+    /// zero values are dropped, a non-zero value at an index >= dim does not return, pairwise different indices give exactly those entries
+    pub fn from_entries(dim: usize, entries: Vec<(usize, ER)>) -> (r: SpVec)
 //@if B
         requires vinside(tw(entries@), dim as int),
 //@endif
-        ensures vinside(tw(entries@), dim as int), r.n@ == dim, vdistinct(tw(entries@)) ==> r.es@ == tw(entries@) { unimplemented!() }
+        ensures r.n@ == dim, forall|t: int| 0 <= t < entries@.len() && (#[trigger] tw(entries@)[t]).1 != r0() ==> tw(entries@)[t].0 < dim,
+            vdistinct(tw(entries@)) ==> r.wf() && forall|i: int| 0 <= i < dim ==> #[trigger] r.at(i) == vval(tw(entries@), i),
+            forall|a: int| #[trigger] vhas(r.es@, a) ==> vhas(tw(entries@), a),
+    //@body impl/SpVec/from_entries for_iter=1 loops=1 iter_model=entries! vec_elem=(usize,usize,ER) source=yui-matrix/src/sparse/sp_vec.rs
+    //@+ sig
+    //@| fn from_entries<T>(dim: usize, entries: T) -> Self where T: IntoIterator<Item = (usize, R)>
+    //@+ pre-raw
+    //@| let ghost w0 = tw(entries@); let ghost mut g3: Seq<Tv> = Seq::empty();
+    //@+ loop 0
+    //@| invariant __it0.es@.len() == w0.len(), tw(__it0.es@) == w0, 0 <= __it0.pos@ <= w0.len(),
+    //@|     tv(__mout0@) =~= col0(w0).subrange(0, __it0.pos@),
+    //@| ensures __it0.pos@ == w0.len(),
+    //@| decreases w0.len() - __it0.pos@,
+    //@+ loop 0 begin-raw
+    //@| let ghost out0 = __mout0@;
+    //@+ loop 0 end
+    //@| assert(i == w0[__it0.pos@ - 1].0 && a.v() == w0[__it0.pos@ - 1].1);
+    //@| assert(tv(__mout0@) =~= tv(out0).push((i, 0usize, a.v())));
+    //@| assert(col0(w0).subrange(0, __it0.pos@) =~= col0(w0).subrange(0, __it0.pos@ - 1).push((i, 0usize, a.v())));
+    //@+ loop 0 after
+    //@| g3 = tv(__mout0@); assert(g3 =~= col0(w0));
+    //@+ post
+    //@| lemma_col0(w0, dim as int);
+    //@| assert forall|t: int| 0 <= t < w0.len() && (#[trigger] w0[t]).1 != r0() implies w0[t].0 < dim by { assert(g3[t].2 != r0()); assert(g3[t].0 < dim); }
+    //@| if vdistinct(w0) {
+    //@|     assert(distinct(g3));
+    //@|     assert(exists|x: Seq<Tv>| #![trigger vcol(x)] __ret.es@ == vcol(x));
+    //@|     assert(exists|x: Seq<Tv>| #![trigger vcol(x)] __ret.es@ == vcol(x) && distinct(x) && inside(x, dim as int, 1));
+    //@|     lemma_vcol(__ret.es@, g3, w0, dim as int);
+    //@| }
+    //@| lemma_vcol_from(__ret.es@, w0, dim as int);
 
     /// the two halves [0, at) and [at, n) of a sparse vector
     pub fn split(&self, at: usize) -> (r: (SpVec, SpVec))
@@ -965,15 +1090,68 @@ impl SpVec {
     //@+ loop 0 after
     //@| lemma_wsel_done(es0, k as int, false, n0); lemma_wsel_done(es0, k as int, true, n0);
 
-    /// ASSUMED (from_entries over `self.iter().filter_map(..)`): as SpMat::extract, for a position map injective on the stored indices
-    #[verifier::external_body] pub fn extract<F: Fn(usize) -> Option<usize>>(&self, dim: usize, f: F) -> (r: SpVec)
+    /// the stored entries of self moved to f(index) -- the real body (as SpMat::extract), for an index map that is a function and injective where defined
+    pub fn extract<F: Fn(usize) -> Option<usize>>(&self, dim: usize, f: F) -> (r: SpVec)
         requires self.wf(), forall|t: int| 0 <= t < self.es@.len() ==> f.requires(((#[trigger] self.es@[t]).0,)),
             forall|t: int, r1: Option<usize>, r2: Option<usize>| 0 <= t < self.es@.len() && #[trigger] f.ensures((self.es@[t].0,), r1) && #[trigger] f.ensures((self.es@[t].0,), r2) ==> r1 == r2,
             forall|s: int, t: int, r: Option<usize>| 0 <= s < self.es@.len() && 0 <= t < self.es@.len() && #[trigger] f.ensures((self.es@[s].0,), r) && #[trigger] f.ensures((self.es@[t].0,), r) && r.is_some() ==> s == t,
+//@if B
+            forall|t: int, o: Option<usize>| 0 <= t < self.es@.len() && #[trigger] f.ensures((self.es@[t].0,), o) && o.is_some() ==> o.unwrap() < dim,
+//@endif
         ensures r.n@ == dim, r.wf(),
-            forall|t: int| 0 <= t < self.es@.len() ==> exists|o: Option<usize>| f.ensures(((#[trigger] self.es@[t]).0,), o) && (o.is_some() ==> o.unwrap() < dim && r.at(o.unwrap() as int) == self.es@[t].1),
+            forall|t: int| 0 <= t < self.es@.len() ==> vext_ok(f, #[trigger] self.es@[t], dim, r),
             forall|a: int| #[trigger] vhas(r.es@, a) ==> exists|t: int| 0 <= t < self.es@.len() && f.ensures(((#[trigger] self.es@[t]).0,), Some(a as usize)),
-    { unimplemented!() }
+    //@body impl/SpVec/extract for_iter=1 loops=1 vec_elem=(usize,ER) source=yui-matrix/src/sparse/sp_vec.rs
+    //@+ sig
+    //@| fn extract<F>(&self, dim: usize, f: F) -> SpVec<R> where F: Fn(usize) -> Option<usize>
+    //@+ pre-raw
+    //@| let ghost es0 = self.es@; let ghost mut os: Seq<Option<usize>> = Seq::empty(); let ghost mut gout: Seq<Tw> = Seq::empty();
+    //@+ loop 0
+    //@| invariant self.wf(), es0 == self.es@, __it0.es@ == es0, 0 <= __it0.pos@ <= es0.len(), os.len() == __it0.pos@,
+    //@|     forall|t: int| 0 <= t < es0.len() ==> f.requires(((#[trigger] es0[t]).0,)),
+    //@|     forall|t: int| 0 <= t < os.len() ==> f.ensures(((#[trigger] es0[t]).0,), os[t]),
+    //@|     tw(__fout0@) =~= vfsel(es0, os, __it0.pos@),
+//@if B
+    //@|     vinside(tw(__fout0@), dim as int),
+    //@|     forall|t: int, o: Option<usize>| 0 <= t < es0.len() && #[trigger] f.ensures((es0[t].0,), o) && o.is_some() ==> o.unwrap() < dim,
+//@endif
+    //@| ensures __it0.pos@ == es0.len(),
+    //@| decreases es0.len() - __it0.pos@,
+    //@+ loop 0 begin-raw
+    //@| let ghost out0 = __fout0@; let ghost os0 = os;
+    //@+ loop 0 begin
+    //@| assert(i == es0[__it0.pos@ - 1].0 && a.v() == es0[__it0.pos@ - 1].1);
+    //@+ loop 0 end
+    //@| os = os0.push(__o0);
+    //@| assert forall|t: int| 0 <= t < os.len() implies f.ensures(((#[trigger] es0[t]).0,), os[t]) by { if t < os0.len() { assert(os[t] == os0[t]); } }
+    //@| lemma_vfsel_ext(es0, os0, os, __it0.pos@ - 1);
+    //@| if __o0.is_some() { assert(tw(__fout0@) =~= tw(out0).push((__o0.unwrap(), es0[__it0.pos@ - 1].1))); } else { assert(__fout0@ == out0); }
+    //@+ loop 0 after
+    //@| gout = tw(__fout0@);
+    //@+ post
+    //@| let n0 = es0.len() as int; let g = vfsel(es0, os, n0); assert(gout =~= g);
+    //@| assert forall|u1: int, u2: int| 0 <= u1 < u2 < g.len() implies #[trigger] g[u1].0 != #[trigger] g[u2].0 by {
+    //@|     lemma_vfsrc(es0, os, n0, u1); lemma_vfsrc(es0, os, n0, u2);
+    //@|     let (t1, t2) = (vfsrc(es0, os, n0, u1), vfsrc(es0, os, n0, u2));
+    //@|     if g[u1].0 == g[u2].0 { assert(os[t1] == os[t2]); assert(f.ensures((es0[t1].0,), os[t1]) && f.ensures((es0[t2].0,), os[t1])); assert(t1 == t2); }
+    //@| }
+    //@| assert(forall|t2: int| 0 <= t2 < gout.len() && (#[trigger] gout[t2]).1 != r0() ==> gout[t2].0 < dim);
+    //@| assert forall|t: int| 0 <= t < es0.len() implies vext_ok(f, #[trigger] es0[t], dim, __ret) by {
+    //@|     let o = os[t];
+    //@|     assert(f.ensures((es0[t].0,), o));
+    //@|     if o.is_some() {
+    //@|         lemma_vfidx(es0, os, n0, t); let u = vfsel(es0, os, t).len() as int; lemma_vval(g, u);
+    //@|         assert(g[u] == (o.unwrap(), es0[t].1)); assert(gout[u] == g[u]);
+    //@|         if es0[t].1 != r0() { assert(gout[u].1 != r0()); assert(gout[u].0 < dim); }
+    //@|     }
+    //@|     assert(vext_at(f, es0[t], dim, __ret, o));
+    //@| }
+    //@| assert forall|a: int| #[trigger] vhas(__ret.es@, a) implies exists|t: int| 0 <= t < es0.len() && f.ensures(((#[trigger] es0[t]).0,), Some(a as usize)) by {
+    //@|     assert(vhas(gout, a));
+    //@|     let u = vpos(g, a); lemma_vfsrc(es0, os, n0, u);
+    //@|     let t = vfsrc(es0, os, n0, u);
+    //@|     assert(os[t] == Some(a as usize));
+    //@| }
 
     /// entries renumbered: the entry at i moves to p.at(i)
     pub fn permute(&self, p: PermView) -> (r: SpVec)
